@@ -598,7 +598,15 @@ def analyse_exact_fit(prog, util=False):
                                 limited_ok = True
                             else:
                                 problems.append("snprintf limit %s is not the allocation size" % render(a[1]))
-                    elif cn in ("sprintf", "strncpy", "memcpy", "strncat", "vsprintf", "gets") and a:
+                    elif cn in ("memcpy", "mempcpy", "memmove") and len(a) == 3 and _linear(a[2], f) is not None \
+                            and _linear(a[2], f)[0] == [_norm(a[1])] and _linear(a[2], f)[1] in (0, 1):
+                        # memcpy(dst, S, strlen(S) [+ 1]): a string copy of S, with or without its terminator
+                        if charged(a[0], n):
+                            needed_terms.append(_norm(a[1]))
+                            if _linear(a[2], f)[1] == 1:
+                                extra += 1
+                                explicit_nul = True
+                    elif cn in ("sprintf", "strncpy", "memcpy", "mempcpy", "memmove", "strncat", "vsprintf", "gets") and a:
                         if charged(a[0], n):
                             problems.append("%s into the buffer: idiom not understood" % cn)
             for lhs, rhs, st, kind in query.stores(f):
